@@ -10,6 +10,7 @@
 #include "Archive/ClmFile.h"
 #include "ResourceManager.h"
 #include "Archive/VolFile.h"
+#include <sys/mman.h>
 #include <map>
 #include <memory>
 #include <stdexcept>
@@ -54,6 +55,8 @@ struct VolGiant : Family {
 			else { op = mkline("op", "lookup"); op.set("who", who).set("case", r.below(6)); }
 			p.ops.push_back(op);
 		}
+		// now and then: one partial read of more than 2^31 bytes straight from the giant file (C13; the buffer is never-touched anonymous memory)
+		if (prop == "C13" && !clm && g_genIndex % 20 == 3) { Line op = mkline("op", "bigread"); op.set("start", r.below(4096)).set("extra", r.chance(1, 2) ? r.below(100000) : (1ull << 31)).set("slice", r.below(2)); p.ops.push_back(op); }
 		return p;
 	}
 
@@ -130,6 +133,55 @@ struct VolGiant : Family {
 			const ref::VolMember& m = ms[mi];
 			std::string q = caseVariant(m.name, op.u("case", 0));
 			std::string where = "member " + std::to_string(mi) + " '" + m.name + "' (block offset " + hex64(im.blockOffsets[mi]) + ", " + std::to_string(m.stored.size()) + " bytes)";
+			if (op.verb == "bigread") {
+				// ONE partial read of more than 2^31 bytes from a file reader / file slice over the giant file, into untouched anonymous
+				// memory: delivers min(requested, remaining), advances by that, and the bytes are the file's (checked at every piece that
+				// is not a hole and at sampled holes)
+				uint64_t start = op.u("start", 0) % 4096;
+				uint64_t ask = (1ull << 31) + op.u("extra", 0);
+				bool slice = op.u("slice", 0) != 0;
+				if (start >= im.total) continue;
+				uint64_t remaining = im.total - start;
+				// in bounds: a plain file reader is asked for no more than it has left (what it does beyond its end is not the subject of
+				// C13); a file slice clamps the request itself, so it may be asked for more
+				if (!slice && ask > remaining) ask = remaining;
+				if (ask <= (1ull << 31)) { ctx.event("bigread skipped"); continue; }
+				uint64_t expect = ask < remaining ? ask : remaining;
+				void* mem = mmap(nullptr, static_cast<size_t>(ask), PROT_READ | PROT_WRITE, MAP_PRIVATE | MAP_ANONYMOUS | MAP_NORESERVE, -1, 0);
+				if (mem == MAP_FAILED) throw std::runtime_error("mmap of the big read buffer failed");
+				uint32_t keepShort = g_fault.shortRead, keepEintr = g_fault.eintr;
+				g_fault.shortRead = 0; g_fault.eintr = 0; // a 2 GiB transfer in 7-byte pieces is not a schedule worth its time
+				uint64_t got = 0, posAfter = 0;
+				o = callLib(plan, [&] {
+					Stream::FileReader fr(path);
+					if (slice) { Stream::FileSliceReader sl = fr.Slice(start, remaining); got = sl.ReadPartial(mem, static_cast<size_t>(ask)); posAfter = sl.Position() + start; }
+					else { fr.Seek(start); got = fr.ReadPartial(mem, static_cast<size_t>(ask)); posAfter = fr.Position(); }
+				}, &what);
+				g_fault.shortRead = keepShort; g_fault.eintr = keepEintr;
+				std::string desc = std::string(slice ? "file slice" : "file reader") + " over " + std::to_string(im.total) + " bytes at position " + std::to_string(start) + ": ReadPartial of " + std::to_string(ask) + " bytes";
+				std::string bad;
+				if (o != OkOut) bad = desc + " failed: " + what;
+				else if (got != expect) bad = desc + " delivered " + std::to_string(got) + ", min(requested, remaining) is " + std::to_string(expect);
+				else if (posAfter != start + expect) bad = desc + " left the position at " + std::to_string(posAfter) + ", expected " + std::to_string(start + expect);
+				else {
+					const uint8_t* b = static_cast<const uint8_t*>(mem);
+					for (auto& pc : im.pieces) {
+						for (size_t q = 0; q < pc.second.size() && bad.empty(); ++q) { uint64_t at = pc.first + q; if (at >= start && at < start + got && b[at - start] != pc.second[q]) bad = desc + ": byte at file offset " + std::to_string(at) + " differs from the file"; }
+					}
+					// holes read as zero: sampled, around 2^31 in particular
+					for (uint64_t at : std::vector<uint64_t>{start + 5000, (1ull << 31) - 1, (1ull << 31), (1ull << 31) + 1, start + got - 1}) {
+						if (at < start || at >= start + got || !bad.empty()) continue;
+						bool inPiece = false;
+						for (auto& pc : im.pieces) if (at >= pc.first && at < pc.first + pc.second.size()) inPiece = true;
+						if (!inPiece && b[at - start] != 0) bad = desc + ": byte at file offset " + std::to_string(at) + " (a hole) is not zero";
+					}
+				}
+				munmap(mem, static_cast<size_t>(ask));
+				if (!bad.empty()) ctx.fail("C13.backend-equal", bad);
+				ctx.count("probe.single_read_beyond_2GiB");
+				ctx.event("bigread " + std::to_string(got));
+				continue;
+			}
 			if (op.verb == "listing") {
 				size_t n = 0;
 				o = callLib(plan, [&] { n = vol->GetCount(); }, &what);
